@@ -8,11 +8,14 @@ import (
 	"context"
 	"encoding/json"
 	"fmt"
+	"io/ioutil"
 	"path/filepath"
 	"strings"
 	"sync"
+	"sync/atomic"
 	"time"
 
+	"github.com/samsarahq/thunder/batch"
 	"github.com/samsarahq/thunder/concurrencylimiter"
 	"github.com/samsarahq/thunder/verifhook"
 	"verifharness/pkg/sched"
@@ -22,7 +25,7 @@ import (
 // ---- cases ----
 
 type Op struct {
-	K    string `json:"k"`              // acq | rel | tr | go | work
+	K    string `json:"k"`              // acq | rel | tr | go | work | with (N = limit of a nested limiter) | batch (N callers of batch.Invoke on the shared context; free mode)
 	Mode string `json:"mode,omitempty"` // acq: "" | cancelled (ctx cancelled before the call) | nolimiter | cancel-later
 	Leak bool   `json:"leak,omitempty"` // acq: the body's end does not call release
 	N    int    `json:"n,omitempty"`    // rel / end of acq: number of calls of the release function (default 1)
@@ -43,8 +46,15 @@ type Case struct {
 
 // ---- execution environment of one case ----
 
+type limInfo struct {
+	ptr interface{}
+	cap int
+	ctx context.Context // a context whose innermost limiter this is
+}
+
 type tok struct {
 	id         int
+	lid        int
 	acquired   bool
 	relStarted bool
 	trDepth    int
@@ -53,6 +63,7 @@ type tok struct {
 
 type mth struct { // mirror of one model thread
 	tid  int
+	lid  int    // limiter (component of the multi-limiter model)
 	kind string // acq | rel | blk
 	hid  int
 	pend string // the operation it is parked before
@@ -69,6 +80,7 @@ type gstate struct {
 	acqLater  bool // the seed may cancel this Acquire while it waits
 	blkSeen   bool
 	lastPoint string
+	acqLid    int // limiter of the Acquire in progress
 }
 
 type scope struct {
@@ -82,6 +94,7 @@ type env struct {
 	c     *Case
 	fixed bool
 	base  context.Context
+	nolim context.Context // a context without limiter (with its own batch context)
 	ctl   *sched.Ctl
 	free  *sched.Free
 	wg    sync.WaitGroup
@@ -91,13 +104,18 @@ type env struct {
 	nG       int
 	toks     []*tok
 	over     bool
-	maxRun   int
+	maxSet   bool
+	maxRun   int // max over time and limiters of (goroutines in critical sections - limit)
 	overWhat string
 
 	// model mirror (ctl mode)
+	lims     []*limInfo
 	events   []string
-	nThreads int
-	hids     map[interface{}]int
+	nThreads []int
+	nHolders []int
+	hids     map[interface{}][2]int // holder -> (limiter, holder index)
+	bf       *batch.Func
+	nBatch   int32
 	stats    map[string]int
 	points   map[string]bool
 	mirrorOK bool
@@ -135,24 +153,50 @@ func (e *env) unregister() {
 // oracle counter: holders returned by Acquire whose release function has not been called and on which
 // no TemporarilyRelease call is in progress.  Called with e.mu held.
 func (e *env) checkCount(where string) {
-	n := 0
+	ns := make([]int, len(e.lims))
 	for _, t := range e.toks {
-		if t.acquired && !t.relStarted && t.trDepth == 0 {
-			n++
+		if t.acquired && !t.relStarted && t.trDepth == 0 && t.lid < len(ns) {
+			ns[t.lid]++
 		}
 	}
-	if n > e.maxRun {
-		e.maxRun = n
-	}
-	if n > e.c.Limit && !e.over {
-		e.over = true
-		e.overWhat = fmt.Sprintf("%d goroutines inside their critical sections with limit %d (%s)", n, e.c.Limit, where)
+	for lid, n := range ns {
+		if d := n - e.lims[lid].cap; d > e.maxRun || !e.maxSet {
+			e.maxRun, e.maxSet = d, true
+		}
+		if n > e.lims[lid].cap && !e.over {
+			e.over = true
+			e.overWhat = fmt.Sprintf("%d goroutines inside their critical sections with limit %d (limiter %d, %s)", n, e.lims[lid].cap, lid, where)
+		}
 	}
 }
 
-func (e *env) length() int {
-	n, _, _ := concurrencylimiter.VerifLen(e.base)
+// lidOf returns the component index of the limiter behind ptr, registering it on first sight. e.mu held.
+func (e *env) lidOf(ptr interface{}, capacity int, ctx context.Context) int {
+	for i, l := range e.lims {
+		if l.ptr == ptr {
+			return i
+		}
+	}
+	if ctx != nil {
+		ctx = context.WithoutCancel(ctx) // the probes at quiescence must not see a cancellation of the client's context
+	}
+	e.lims = append(e.lims, &limInfo{ptr: ptr, cap: capacity, ctx: ctx})
+	e.nThreads = append(e.nThreads, 0)
+	e.nHolders = append(e.nHolders, 0)
+	return len(e.lims) - 1
+}
+
+func (e *env) lenOf(lid int) int {
+	n, _, _ := concurrencylimiter.VerifLen(e.lims[lid].ctx)
 	return n
+}
+
+func (e *env) lens() []int {
+	out := make([]int, len(e.lims))
+	for i := range e.lims {
+		out[i] = e.lenOf(i)
+	}
+	return out
 }
 
 // ---- interpreter of client programs ----
@@ -209,8 +253,67 @@ func (e *env) runOps(gs *gstate, sc scope, ops []Op) {
 			e.spawn(sc, op.Body)
 		case "acq":
 			e.acquire(gs, sc, op)
+		case "with":
+			nsc := sc
+			nsc.ctx = concurrencylimiter.With(sc.ctx, op.N)
+			e.mu.Lock()
+			e.stats["nested-with"]++
+			e.mu.Unlock()
+			e.runOps(gs, nsc, op.Body)
+		case "batch":
+			if e.ctl == nil {
+				e.batchOp(sc, maxi(2, op.N))
+			}
 		}
 	}
+}
+
+// batchOp: n goroutines call batch.Func.Invoke on the shared context sc.ctx, as resolvers sharing a request
+// context do.  All but the group's creator wait inside TemporarilyRelease on the shared holder.  For the
+// oracle the whole operation counts as a temporary release of that holder.
+func (e *env) batchOp(sc scope, n int) {
+	t := sc.tok
+	e.mu.Lock()
+	if t != nil {
+		t.trDepth++
+	}
+	e.stats["batch-invoke-on-shared-context"]++
+	e.mu.Unlock()
+	var wg sync.WaitGroup
+	for i := 0; i < n; i++ {
+		wg.Add(1)
+		arg := int(atomic.AddInt32(&e.nBatch, 1))
+		go func() {
+			defer wg.Done()
+			gs := e.register(nil)
+			e.free.Register(gs.id)
+			defer e.free.Unregister()
+			defer e.unregister()
+			defer func() {
+				if p := recover(); p != nil {
+					e.mu.Lock()
+					e.fail("panic-in-limiter", fmt.Sprint(p))
+					e.mu.Unlock()
+				}
+			}()
+			v, err := e.bf.Invoke(sc.ctx, arg)
+			if err == context.Canceled {
+				return // the creator's (shared) context was cancelled: the documented outcome
+			}
+			if x, ok := v.(int); err != nil || !ok || x != arg+1000 {
+				e.mu.Lock()
+				e.fail("batch-invoke-wrong-result", fmt.Sprintf("Invoke(%d) = (%v, %v)", arg, v, err))
+				e.mu.Unlock()
+			}
+		}()
+	}
+	wg.Wait()
+	e.mu.Lock()
+	if t != nil {
+		t.trDepth--
+		e.checkCount("after batch.Invoke calls on the shared context returned")
+	}
+	e.mu.Unlock()
 }
 
 func maxi(a, b int) int {
@@ -224,7 +327,7 @@ func (e *env) acquire(gs *gstate, sc scope, op Op) {
 	ctx := sc.ctx
 	outer := sc.tok
 	if op.Mode == "nolimiter" {
-		ctx = context.Background()
+		ctx = e.nolim
 		outer = nil
 	}
 	cctx, cancel := context.WithCancel(ctx)
@@ -242,7 +345,7 @@ func (e *env) acquire(gs *gstate, sc scope, op Op) {
 	nsc := scope{ctx: nctx, tok: outer, rel: rel}
 	if res == 1 {
 		e.mu.Lock()
-		t := &tok{id: len(e.toks), acquired: true, rel: rel}
+		t := &tok{id: len(e.toks), lid: gs.acqLid, acquired: true, rel: rel}
 		e.toks = append(e.toks, t)
 		e.checkCount("after Acquire returned")
 		e.mu.Unlock()
@@ -277,9 +380,9 @@ func (e *env) tempRelease(gs *gstate, sc scope, body []Op) {
 	concurrencylimiter.TemporarilyRelease(sc.ctx, func() {
 		if e.ctl != nil && !gs.blkSeen {
 			// context without holder: block() was not entered
-			tid := e.newThread()
-			gs.stack = append(gs.stack, &mth{tid: tid, kind: "blk", pf: true, hid: -1})
-			e.emit("LNewBlock None", 13, -1)
+			tid := e.newThread(0)
+			gs.stack = append(gs.stack, &mth{tid: tid, lid: 0, kind: "blk", pf: true, hid: -1})
+			e.emit(0, "LNewBlock None", 13, -1)
 			e.stats["tr-no-holder"]++
 		}
 		gs.blkSeen = false
@@ -289,7 +392,7 @@ func (e *env) tempRelease(gs *gstate, sc scope, body []Op) {
 		// f returned in a block() call that had nothing to re-acquire
 		m := gs.stack[len(gs.stack)-1]
 		if m.kind == "blk" && m.pf {
-			e.emit(fmt.Sprintf("LFRet %d", m.tid), 14, -1)
+			e.emit(m.lid, fmt.Sprintf("LFRet %d", m.tid), 14, -1)
 			gs.stack = gs.stack[:len(gs.stack)-1]
 		} else {
 			e.mirrorOK = false
@@ -305,18 +408,18 @@ func (e *env) tempRelease(gs *gstate, sc scope, body []Op) {
 
 // ---- model mirror: turns hook arrivals into labels of Limiter/Model.v (ctl mode only) ----
 
-func (e *env) newThread() int {
-	t := e.nThreads
-	e.nThreads++
+func (e *env) newThread(lid int) int {
+	t := e.nThreads[lid]
+	e.nThreads[lid]++
 	return t
 }
 
-func (e *env) emit(label string, code int, length int) {
+func (e *env) emit(lid int, label string, code int, length int) {
 	l := "None"
 	if length >= 0 {
 		l = fmt.Sprintf("(Some %d)", length)
 	}
-	e.events = append(e.events, fmt.Sprintf("(%s, %d, %s)", label, code, l))
+	e.events = append(e.events, fmt.Sprintf("(%d, %s, %d, %s)", lid, label, code, l))
 }
 
 func top(gs *gstate) *mth {
@@ -349,16 +452,21 @@ func (e *env) hookCtl(point string, args ...interface{}) {
 	m := top(gs)
 	switch point {
 	case "limiter.acquire.nolimiter":
-		tid := e.newThread()
-		e.emit("LNewAcquire false false", 0, -1)
-		e.emit(fmt.Sprintf("LAcqNoLimiter %d", tid), 2, -1)
+		tid := e.newThread(0)
+		e.emit(0, "LNewAcquire false false", 0, -1)
+		e.emit(0, fmt.Sprintf("LAcqNoLimiter %d", tid), 2, -1)
 		gs.acqRes = 3
 		e.stats["acquire-nolimiter"]++
 	case "limiter.acquire.select":
-		tid := e.newThread()
+		capacity, _ := args[2].(int)
+		e.mu.Lock()
+		lid := e.lidOf(args[0], capacity, gs.acqCtx)
+		gs.acqLid = lid
+		e.mu.Unlock()
+		tid := e.newThread(lid)
 		cancelled := gs.acqCtx != nil && gs.acqCtx.Err() != nil
-		gs.stack = append(gs.stack, &mth{tid: tid, kind: "acq", pend: "select"})
-		e.emit(fmt.Sprintf("LNewAcquire true %v", cancelled), 0, length)
+		gs.stack = append(gs.stack, &mth{tid: tid, lid: lid, kind: "acq", pend: "select"})
+		e.emit(lid, fmt.Sprintf("LNewAcquire true %v", cancelled), 0, length)
 		if cancelled {
 			e.stats["acquire-on-cancelled-ctx"]++
 		}
@@ -367,8 +475,9 @@ func (e *env) hookCtl(point string, args ...interface{}) {
 			bad()
 			break
 		}
-		e.hids[args[0]] = len(e.hids)
-		e.emit(fmt.Sprintf("LAcqSend %d", m.tid), 1, length)
+		e.hids[args[0]] = [2]int{m.lid, e.nHolders[m.lid]}
+		e.nHolders[m.lid]++
+		e.emit(m.lid, fmt.Sprintf("LAcqSend %d", m.tid), 1, length)
 		gs.stack = gs.stack[:len(gs.stack)-1]
 		gs.acqRes = 1
 	case "limiter.acquire.cancelled":
@@ -376,25 +485,26 @@ func (e *env) hookCtl(point string, args ...interface{}) {
 			bad()
 			break
 		}
-		e.emit(fmt.Sprintf("LAcqCtxDone %d", m.tid), 2, length)
+		e.emit(m.lid, fmt.Sprintf("LAcqCtxDone %d", m.tid), 2, length)
 		gs.stack = gs.stack[:len(gs.stack)-1]
 		gs.acqRes = 2
 		e.stats["acquire-returned-on-ctx-done"]++
 	case "limiter.release.swap":
-		hid, ok := e.hids[args[0]]
+		lh, ok := e.hids[args[0]]
 		if !ok {
 			bad()
 			break
 		}
-		tid := e.newThread()
-		gs.stack = append(gs.stack, &mth{tid: tid, kind: "rel", hid: hid, pend: "swap"})
-		e.emit(fmt.Sprintf("LNewRelease %d", hid), 3, length)
+		lid, hid := lh[0], lh[1]
+		tid := e.newThread(lid)
+		gs.stack = append(gs.stack, &mth{tid: tid, lid: lid, kind: "rel", hid: hid, pend: "swap"})
+		e.emit(lid, fmt.Sprintf("LNewRelease %d", hid), 3, length)
 	case "limiter.release.recv":
 		if m == nil || m.kind != "rel" || m.pend != "swap" {
 			bad()
 			break
 		}
-		e.emit(fmt.Sprintf("LRelSwap %d", m.tid), 4, length)
+		e.emit(m.lid, fmt.Sprintf("LRelSwap %d", m.tid), 4, length)
 		m.pend = "recv"
 	case "limiter.release.done":
 		if m == nil || m.kind != "rel" {
@@ -402,28 +512,29 @@ func (e *env) hookCtl(point string, args ...interface{}) {
 			break
 		}
 		if m.pend == "swap" {
-			e.emit(fmt.Sprintf("LRelSwap %d", m.tid), 5, length)
+			e.emit(m.lid, fmt.Sprintf("LRelSwap %d", m.tid), 5, length)
 			e.stats["release-found-not-acquired"]++
 		} else {
-			e.emit(fmt.Sprintf("LRelRecv %d", m.tid), 5, length)
+			e.emit(m.lid, fmt.Sprintf("LRelRecv %d", m.tid), 5, length)
 		}
 		gs.stack = gs.stack[:len(gs.stack)-1]
 	case "limiter.block.cas":
-		hid, ok := e.hids[args[0]]
+		lh, ok := e.hids[args[0]]
 		if !ok {
 			bad()
 			break
 		}
-		tid := e.newThread()
-		gs.stack = append(gs.stack, &mth{tid: tid, kind: "blk", hid: hid, pend: "cas"})
+		lid, hid := lh[0], lh[1]
+		tid := e.newThread(lid)
+		gs.stack = append(gs.stack, &mth{tid: tid, lid: lid, kind: "blk", hid: hid, pend: "cas"})
 		gs.blkSeen = true
-		e.emit(fmt.Sprintf("LNewBlock (Some %d)", hid), 6, length)
+		e.emit(lid, fmt.Sprintf("LNewBlock (Some %d)", hid), 6, length)
 	case "limiter.block.recv":
 		if m == nil || m.kind != "blk" || m.pend != "cas" {
 			bad()
 			break
 		}
-		e.emit(fmt.Sprintf("LBlkCas %d", m.tid), 7, length)
+		e.emit(m.lid, fmt.Sprintf("LBlkCas %d", m.tid), 7, length)
 		m.pend = "recv"
 	case "limiter.block.f":
 		if m == nil || m.kind != "blk" {
@@ -431,11 +542,11 @@ func (e *env) hookCtl(point string, args ...interface{}) {
 			break
 		}
 		if m.pend == "cas" {
-			e.emit(fmt.Sprintf("LBlkCas %d", m.tid), 13, length)
+			e.emit(m.lid, fmt.Sprintf("LBlkCas %d", m.tid), 13, length)
 			m.pf = true
 			e.stats["block-cas-failed"]++
 		} else if m.pend == "recv" {
-			e.emit(fmt.Sprintf("LBlkRecv %d", m.tid), 8, length)
+			e.emit(m.lid, fmt.Sprintf("LBlkRecv %d", m.tid), 8, length)
 			e.stats["block-gave-up-token"]++
 		} else {
 			bad()
@@ -446,28 +557,28 @@ func (e *env) hookCtl(point string, args ...interface{}) {
 			bad()
 			break
 		}
-		e.emit(fmt.Sprintf("LFRet %d", m.tid), 9, length)
+		e.emit(m.lid, fmt.Sprintf("LFRet %d", m.tid), 9, length)
 		m.pend = "re1"
 	case "limiter.block.send": // original order: CAS succeeded, now the send
 		if m == nil || m.kind != "blk" || m.pend != "re1" {
 			bad()
 			break
 		}
-		e.emit(fmt.Sprintf("LBlkCas2 %d", m.tid), 12, length)
+		e.emit(m.lid, fmt.Sprintf("LBlkCas2 %d", m.tid), 12, length)
 		m.pend = "send"
 	case "limiter.block.cas2": // repaired order: sent, now the CAS
 		if m == nil || m.kind != "blk" || m.pend != "re1" {
 			bad()
 			break
 		}
-		e.emit(fmt.Sprintf("LBlkSend %d", m.tid), 10, length)
+		e.emit(m.lid, fmt.Sprintf("LBlkSend %d", m.tid), 10, length)
 		m.pend = "cas2"
 	case "limiter.block.giveback":
 		if m == nil || m.kind != "blk" || m.pend != "cas2" {
 			bad()
 			break
 		}
-		e.emit(fmt.Sprintf("LBlkCas2 %d", m.tid), 11, length)
+		e.emit(m.lid, fmt.Sprintf("LBlkCas2 %d", m.tid), 11, length)
 		m.pend = "giveback"
 		e.stats["reacquire-cas-failed"]++
 	case "limiter.block.done":
@@ -477,14 +588,14 @@ func (e *env) hookCtl(point string, args ...interface{}) {
 		}
 		switch m.pend {
 		case "re1": // original order, CAS failed
-			e.emit(fmt.Sprintf("LBlkCas2 %d", m.tid), 14, length)
+			e.emit(m.lid, fmt.Sprintf("LBlkCas2 %d", m.tid), 14, length)
 			e.stats["reacquire-cas-failed"]++
 		case "send":
-			e.emit(fmt.Sprintf("LBlkSend %d", m.tid), 14, length)
+			e.emit(m.lid, fmt.Sprintf("LBlkSend %d", m.tid), 14, length)
 		case "cas2":
-			e.emit(fmt.Sprintf("LBlkCas2 %d", m.tid), 14, length)
+			e.emit(m.lid, fmt.Sprintf("LBlkCas2 %d", m.tid), 14, length)
 		case "giveback":
-			e.emit(fmt.Sprintf("LBlkGiveBack %d", m.tid), 14, length)
+			e.emit(m.lid, fmt.Sprintf("LBlkGiveBack %d", m.tid), 14, length)
 		default:
 			bad()
 		}
@@ -497,17 +608,21 @@ func (e *env) hookCtl(point string, args ...interface{}) {
 
 // enabled: can the goroutine parked at g.Point perform its next atomic operation without blocking?
 func (e *env) enabled(g *sched.G, gs *gstate) bool {
-	n := e.length()
+	if gs == nil || top(gs) == nil {
+		return true
+	}
+	lid := top(gs).lid
+	n, limit := e.lenOf(lid), e.lims[lid].cap
 	switch g.Point {
 	case "limiter.acquire.select":
-		return n < e.c.Limit || (gs != nil && gs.acqCtx != nil && gs.acqCtx.Err() != nil)
+		return n < limit || (gs.acqCtx != nil && gs.acqCtx.Err() != nil)
 	case "limiter.release.recv", "limiter.block.recv", "limiter.block.giveback":
 		return n > 0
 	case "limiter.block.send":
-		return n < e.c.Limit
+		return n < limit
 	case "limiter.block.reacquire":
 		if e.fixed {
-			return n < e.c.Limit
+			return n < limit
 		}
 		return true
 	}
@@ -572,7 +687,7 @@ func (e *env) runCtl() bool {
 			g := waiting[int((roll>>8)%uint64(len(waiting)))]
 			gs := e.gsOf(g)
 			gs.acqCancl()
-			e.emit(fmt.Sprintf("LCancel %d", top(gs).tid), 0, e.length())
+			e.emit(top(gs).lid, fmt.Sprintf("LCancel %d", top(gs).tid), 0, e.lenOf(top(gs).lid))
 			e.stats["cancel-while-waiting"]++
 			continue
 		}
@@ -595,7 +710,7 @@ func (e *env) runCtl() bool {
 				}
 			}
 			if t == nil {
-				e.fail("deadlock-channel-full-no-holder", fmt.Sprintf("%d goroutines wait for room, len(ch)=%d, but every holder has been released", len(parked), e.length()))
+				e.fail("deadlock-channel-full-no-holder", fmt.Sprintf("%d goroutines wait for room, len(ch)=%v, but every holder has been released", len(parked), e.lens()))
 				return false
 			}
 			e.stats["forced-release-on-deadlock"]++
@@ -648,6 +763,9 @@ func (e *env) hookFree(point string, args ...interface{}) {
 	if gs := e.cur(); gs != nil {
 		e.mu.Lock()
 		switch point {
+		case "limiter.acquire.select":
+			capacity, _ := args[2].(int)
+			gs.acqLid = e.lidOf(args[0], capacity, gs.acqCtx)
 		case "limiter.acquire.acquired":
 			gs.acqRes = 1
 		case "limiter.acquire.cancelled":
@@ -736,7 +854,7 @@ func (e *env) runFree() bool {
 			acted = true
 		}
 		if !acted && idle > 1500 {
-			e.fail("goroutine-never-returns", fmt.Sprintf("no progress for 3 s, len(ch)=%d, every Acquire cancelled and every holder released", e.length()))
+			e.fail("goroutine-never-returns", fmt.Sprintf("no progress for 3 s, len(ch)=%v, every Acquire cancelled and every holder released", e.lens()))
 			return false
 		}
 		if acted {
@@ -749,16 +867,51 @@ func (e *env) runFree() bool {
 
 type result struct {
 	quiescent bool
-	finalLen  int
-	free      int // -1 not measured
+	finalLens []int
+	free      []int // nil: not measured
 	env       *env
 }
 
+func intList(xs []int) string {
+	ss := make([]string, len(xs))
+	for i, x := range xs {
+		ss[i] = fmt.Sprint(x)
+	}
+	return "[" + strings.Join(ss, "; ") + "]"
+}
+
 func runCase(c *Case, fixed bool) *result {
-	e := &env{c: c, fixed: fixed, gs: map[int64]*gstate{}, hids: map[interface{}]int{}, stats: map[string]int{},
+	e := &env{c: c, fixed: fixed, gs: map[int64]*gstate{}, hids: map[interface{}][2]int{}, stats: map[string]int{},
 		points: map[string]bool{}, mirrorOK: true}
-	e.base = concurrencylimiter.With(context.Background(), c.Limit)
-	res := &result{env: e, free: -1}
+	e.base = batch.WithBatching(concurrencylimiter.With(context.Background(), c.Limit))
+	e.nolim = batch.WithBatching(context.Background())
+	e.bf = &batch.Func{
+		Many: func(ctx context.Context, args []interface{}) ([]interface{}, error) {
+			out := make([]interface{}, len(args))
+			for i, a := range args {
+				out[i] = a.(int) + 1000
+			}
+			return out, nil
+		},
+		WaitInterval: 50 * time.Microsecond, MaxDuration: 500 * time.Microsecond,
+	}
+	// the base limiter is component 0: learn its identity from the select point of an Acquire on a cancelled context
+	{
+		cctx, cancel := context.WithCancel(e.base)
+		cancel()
+		verifhook.Set(func(point string, args ...interface{}) {
+			if point == "limiter.acquire.select" && len(e.lims) == 0 {
+				e.lidOf(args[0], c.Limit, e.base)
+			}
+		})
+		_, rel := concurrencylimiter.Acquire(cctx)
+		rel()
+		verifhook.Set(nil)
+		if len(e.lims) == 0 {
+			e.lidOf(nil, c.Limit, e.base)
+		}
+	}
+	res := &result{env: e}
 	if c.Mode == "free" {
 		e.free = sched.NewFree(c.SchedSeed, c.Perturb, append([]sched.Hold{}, c.Holds...))
 		verifhook.Set(e.hookFree)
@@ -768,7 +921,7 @@ func runCase(c *Case, fixed bool) *result {
 		verifhook.Set(e.hookCtl)
 		res.quiescent = e.runCtl()
 	}
-	res.finalLen = e.length()
+	res.finalLens = e.lens()
 	if !res.quiescent {
 		if e.failSig == "" {
 			e.fail("goroutine-never-returns", "some goroutine did not return")
@@ -779,8 +932,8 @@ func runCase(c *Case, fixed bool) *result {
 		verifhook.Set(nil)
 		return res
 	}
-	// quiescence: call every release function not called yet, then the full capacity must be obtainable
-	// without blocking
+	// quiescence: call every release function not called yet, then the full capacity of every limiter must be
+	// obtainable without blocking
 	acquired := 0
 	verifhook.Set(func(point string, args ...interface{}) {
 		if point == "limiter.acquire.acquired" {
@@ -801,19 +954,23 @@ func runCase(c *Case, fixed bool) *result {
 			}
 		}
 	}
-	for i := 0; i < c.Limit; i++ {
-		ctx, cancel := context.WithTimeout(e.base, 30*time.Millisecond)
-		concurrencylimiter.Acquire(ctx)
-		cancel()
-		if acquired != i+1 {
-			break
+	for lid, l := range e.lims {
+		acquired = 0
+		before := e.lenOf(lid)
+		for i := 0; i < l.cap; i++ {
+			ctx, cancel := context.WithTimeout(l.ctx, 30*time.Millisecond)
+			concurrencylimiter.Acquire(ctx)
+			cancel()
+			if acquired != i+1 {
+				break
+			}
+		}
+		res.free = append(res.free, acquired)
+		if acquired != l.cap {
+			e.fail("capacity-lost-at-quiescence", fmt.Sprintf("every holder released and every call returned, but only %d of %d tokens of limiter %d can be acquired (len(ch) was %d)", acquired, l.cap, lid, before))
 		}
 	}
 	verifhook.Set(nil)
-	res.free = acquired
-	if acquired != c.Limit {
-		e.fail("capacity-lost-at-quiescence", fmt.Sprintf("every holder released and every call returned, but only %d of %d tokens can be acquired (len(ch) was %d)", acquired, c.Limit, e.length()-acquired))
-	}
 	if e.over {
 		e.fail("over-admission", e.overWhat)
 	}
@@ -822,7 +979,8 @@ func runCase(c *Case, fixed bool) *result {
 
 // ---- generators ----
 
-var bodyKinds = []string{"work", "work", "tr", "tr", "tr", "go-rel", "go-tr", "go-acq", "rel", "acq", "go-work"}
+var bodyKinds = []string{"work", "work", "tr", "tr", "tr", "go-rel", "go-tr", "go-acq", "rel", "acq", "go-work",
+	"work", "work", "tr", "tr", "tr", "go-rel", "go-tr", "go-acq", "rel", "acq", "go-work", "with", "with", "batch"}
 
 func genBody(r *vh.Rng, depth int, budget *int) []Op {
 	var ops []Op
@@ -850,6 +1008,15 @@ func genBody(r *vh.Rng, depth int, budget *int) []Op {
 			ops = append(ops, Op{K: "go", Body: []Op{genAcq(r, depth-1, budget)}})
 		case "rel":
 			ops = append(ops, Op{K: "rel", N: 1 + r.Intn(3)})
+		case "with":
+			// a nested limiter: Acquire inside uses it, TemporarilyRelease still finds the outer holder
+			b := []Op{genAcq(r, depth-1, budget)}
+			if r.Chance(50) {
+				b = append([]Op{{K: "tr", Body: []Op{{K: "work"}}}}, b...)
+			}
+			ops = append(ops, Op{K: "with", N: r.Intn(3), Body: b})
+		case "batch":
+			ops = append(ops, Op{K: "batch", N: 2 + r.Intn(3)})
 		case "acq":
 			if depth > 0 {
 				ops = append(ops, genAcq(r, depth-1, budget))
@@ -976,6 +1143,80 @@ func genWitnessFree(r *vh.Rng) *Case {
 	return c
 }
 
+// ---- failing-input search: small edits of a case on which model and implementation disagreed ----
+
+var holdChoices = []string{"limiter.block.send", "limiter.block.cas2", "limiter.block.reacquire", "limiter.release.recv",
+	"limiter.block.recv", "limiter.release.swap", "limiter.block.giveback", "limiter.block.cas", "limiter.acquire.select"}
+
+func cloneCase(c *Case) *Case {
+	b, _ := json.Marshal(c)
+	var d Case
+	json.Unmarshal(b, &d)
+	return &d
+}
+
+func variant(r *vh.Rng, seed *Case) *Case {
+	c := cloneCase(seed)
+	c.Origin = "search"
+	c.SchedSeed = r.U64() >> 1
+	if c.Mode == "" {
+		c.Mode = "ctl"
+	}
+	// other schedule picks: keep a prefix of the recorded picks, the seed decides the rest
+	if len(c.Picks) > 0 {
+		c.Picks = c.Picks[:r.Intn(len(c.Picks)+1)]
+	}
+	small := []Op{{K: "go", Body: []Op{{K: "rel"}}}, {K: "tr", Body: []Op{{K: "work"}}}, {K: "go", Body: []Op{{K: "tr", Body: []Op{{K: "work"}}}}},
+		{K: "rel"}, {K: "work"}, {K: "go", Body: []Op{{K: "acq", Body: []Op{{K: "work"}}}}}, {K: "tr", Body: []Op{{K: "rel"}, {K: "tr", Body: []Op{{K: "work"}}}}}}
+	for k := r.Intn(4); k > 0; k-- {
+		switch r.Intn(7) {
+		case 0: // another hold point
+			c.Hold = r.Pick(holdChoices)
+		case 1:
+			c.Hold = ""
+		case 2: // one more goroutine
+			if len(c.Progs) > 0 && r.Chance(50) {
+				c.Progs = append(c.Progs, cloneCase(&Case{Progs: [][]Op{c.Progs[r.Intn(len(c.Progs))]}}).Progs[0])
+			} else {
+				c.Progs = append(c.Progs, []Op{{K: "acq", Body: []Op{{K: "work"}, small[r.Intn(len(small))]}}})
+			}
+		case 3: // one more operation inside some critical section
+			if len(c.Progs) > 0 {
+				p := c.Progs[r.Intn(len(c.Progs))]
+				for i := range p {
+					if p[i].K == "acq" {
+						at := r.Intn(len(p[i].Body) + 1)
+						b := append([]Op{}, p[i].Body[:at]...)
+						b = append(b, small[r.Intn(len(small))])
+						p[i].Body = append(b, p[i].Body[at:]...)
+						break
+					}
+				}
+			}
+		case 4:
+			if r.Chance(50) {
+				c.Limit = maxi(0, c.Limit+r.Intn(3)-1)
+			} else if len(c.Progs) > 0 { // a forgotten / repeated release
+				p := c.Progs[r.Intn(len(c.Progs))]
+				for i := range p {
+					if p[i].K == "acq" {
+						p[i].Leak = !p[i].Leak
+						p[i].N = r.Intn(3)
+						break
+					}
+				}
+			}
+		case 5: // the same program under the real scheduler, with holds
+			c.Mode, c.Picks, c.Perturb = "free", nil, 10+r.Intn(50)
+			c.Holds = []sched.Hold{{Point: r.Pick(holdChoices), UntilPoint: r.Pick(append(holdChoices, "limiter.release.done", "limiter.acquire.acquired")),
+				UntilCount: 1 + r.Intn(3), Arrived: r.Chance(40), TimeoutUs: 300 + r.Intn(3000)}}
+		default:
+			c.Mode, c.Holds = "ctl", nil
+		}
+	}
+	return c
+}
+
 // ---- main ----
 
 func probeFixed() (bool, map[string]bool) {
@@ -1000,7 +1241,28 @@ func main() {
 	run.Extra = map[string]interface{}{"reacquire_order": map[bool]string{true: "send-then-CAS (repaired)", false: "CAS-then-send (original)"}[fixed]}
 
 	var cases []*Case
-	if o.Replay != "" {
+	searching := o.Search != ""
+	if searching {
+		var seeds []*Case
+		if b, err := ioutil.ReadFile(o.Search); err == nil {
+			for _, line := range strings.Split(string(b), "\n") {
+				var w struct {
+					Case *Case `json:"case"`
+				}
+				if strings.TrimSpace(line) != "" && json.Unmarshal([]byte(line), &w) == nil && w.Case != nil && len(w.Case.Progs) > 0 {
+					seeds = append(seeds, w.Case)
+				}
+			}
+		}
+		for i := 0; i < o.N; i++ {
+			cr := r.Fork()
+			if len(seeds) > 0 {
+				cases = append(cases, variant(cr, seeds[i%len(seeds)]))
+			} else {
+				cases = append(cases, genCase(cr))
+			}
+		}
+	} else if o.Replay != "" {
 		var c Case
 		if vh.ReadReplayCase(o.Replay, &c) {
 			c.Origin = "replay"
@@ -1034,7 +1296,7 @@ func main() {
 		if len(terms) == 0 {
 			return
 		}
-		run.WriteCasesV(fmt.Sprintf("cases_%d.v", start), []string{"Limiter.Model"}, "", "mismatches_from_sparse", 0, terms)
+		run.WriteCasesV(fmt.Sprintf("cases_%d.v", start), []string{"Limiter.Model", "Limiter.ModelMulti"}, "", "mmismatches_from_sparse", 0, terms)
 		terms = nil
 	}
 	nFail := 0
@@ -1067,7 +1329,8 @@ func main() {
 		run.Hist(fmt.Sprintf("goroutines:%d", e.nG))
 		run.Hist(fmt.Sprintf("events:%d0s", nev/10))
 		run.Hist("mode:" + c.Mode)
-		run.Hist(fmt.Sprintf("max-running-minus-limit:%d", e.maxRun-c.Limit))
+		run.Hist(fmt.Sprintf("max-running-minus-limit:%d", e.maxRun))
+		run.Hist(fmt.Sprintf("limiters:%d", len(e.lims)))
 		for k, v := range e.stats {
 			if v > 0 {
 				run.Hist("saw:" + k)
@@ -1080,6 +1343,12 @@ func main() {
 			run.Fail(idx, e.failSig, e.failDet, rc)
 			nFail++
 		}
+		if searching {
+			if nFail >= 3 {
+				break // a failing input has been found
+			}
+			continue
+		}
 		if c.Mode == "ctl" {
 			if !e.mirrorOK {
 				// the hook sequence does not have the shape of the code the model describes: leave the
@@ -1087,11 +1356,15 @@ func main() {
 				e.events = append(e.events, "(LFRet 99999, 0, None)")
 			}
 			free := "None"
-			if res.free >= 0 {
-				free = fmt.Sprintf("(Some %d)", res.free)
+			if res.free != nil {
+				free = "(Some " + intList(res.free) + ")"
 			}
-			terms = append(terms, fmt.Sprintf("(%d, mk_case %v %d %s %d %v %s %v)", idx, fixed, c.Limit,
-				vh.CoqList(e.events), res.finalLen, res.quiescent, free, e.over))
+			caps := make([]int, len(e.lims))
+			for i, l := range e.lims {
+				caps[i] = l.cap
+			}
+			terms = append(terms, fmt.Sprintf("(%d, mk_mcase %v %s %s %s %v %s %v)", idx, fixed, intList(caps),
+				vh.CoqList(e.events), intList(res.finalLens), res.quiescent, free, e.over))
 			if len(terms) >= shard {
 				flush()
 				start = idx + 1
